@@ -156,6 +156,7 @@ func hC14Pool() {
 	// "another RPC" takes every buffer that is in the pool when the handler is about to return and keeps it:
 	// whatever the transcoder released by then must not be touched by it any more
 	var taken []*bytes.Buffer
+	takenTwice := false
 	p.backend.hook = func(point int) {
 		if point != 3 {
 			return
@@ -166,6 +167,11 @@ func hC14Pool() {
 				break
 			}
 			b := x.(*bytes.Buffer)
+			for _, t := range taken {
+				if t == b {
+					takenTwice = true // released twice: the pool hands the same buffer to two owners
+				}
+			}
 			b.Reset()
 			b.WriteString("MARK")
 			taken = append(taken, b)
@@ -181,7 +187,7 @@ func hC14Pool() {
 		verifAssert(b.String() == "MARK", "C14: a buffer released to the pool is not written by its previous owner any more")
 	}
 	p.backend.hook = nil
-	verifAssert(poolsSound(p.tr), "C14: no pooled object is owned twice after the RPC")
+	verifAssert(!takenTwice && poolsSound(p.tr), "C14: no pooled object is owned twice after the RPC")
 
 	// a follow-up RPC on the same transcoder behaves like on a fresh one
 	fresh := newPipe(cfg)
